@@ -143,6 +143,15 @@ fn history_case<T: Sc>(rng: &mut Rng, case: u64, out: &mut CaseOut, maxlen: usiz
         match (prob.coeffs(), prob.residuals()) {
             (Some(c), Some(r)) => {
                 let r: Vec<f64> = r.iter().map(|v| v.w()).collect();
+                // quantities "computed for the reported alpha" cannot be finite where the weighted
+                // basis matrix at that alpha is not: finite values there are leftovers of another alpha
+                let v = View::new::<T>(&spec, &alpha);
+                if !v.phi_w.all_finite() && r.iter().all(|x| x.is_finite()) && widen(&c).all_finite() {
+                    out.evals += 1;
+                    violation(out, stream, case, format!("the basis matrix at the reported alpha {alpha:?} is not finite, yet finite residuals and coefficients are exposed (history step {step}): they were not computed for this alpha"),
+                        json!({"problem": spec.to_json(), "alpha": alpha}));
+                    return;
+                }
                 if !check_identity::<T>(out, stream, case, &spec, &yw, &alpha, &widen(&c), &r, &format!("history step {step}")) {
                     return;
                 }
@@ -163,7 +172,13 @@ fn history_case<T: Sc>(rng: &mut Rng, case: u64, out: &mut CaseOut, maxlen: usiz
         }
         if rng.chance(0.8) {
             let fresh = wide_alpha(rng, &g.alpha_true);
-            let a = next_alpha(rng, &alpha, fresh);
+            let mut a = next_alpha(rng, &alpha, fresh);
+            if rng.chance(0.08) {
+                // a step into a region where basis functions overflow
+                let k = rng.below(a.len());
+                a[k] = -1e-3 * a[k].abs();
+                out.count("overflowing_updates");
+            }
             last_alpha = a.iter().map(|v| T::of(*v)).collect();
             prob.set_params(&DVector::from_vec(last_alpha.clone()));
         } else {
@@ -278,7 +293,7 @@ pub fn run(ctx: &Ctx) {
     let t = ctx.tier;
     let maxlen = t.pick(10, 50);
     let b = t.pick(15.0, 150.0);
-    ctx.run_cases("histories", t.pick(1500, 30000), b, |r, c, o| if c % 3 == 0 { history_case::<f32>(r, c, o, maxlen) } else { history_case::<f64>(r, c, o, maxlen) });
-    ctx.run_cases("fit-exchanges", t.pick(500, 15000), b, |r, c, o| if c % 4 == 0 { fit_case::<f32>(r, c, o) } else { fit_case::<f64>(r, c, o) });
-    ctx.run_cases("rank-deficient", t.pick(600, 12000), b, |r, c, o| if c % 3 == 0 { rankdef_case::<f32>(r, c, o) } else { rankdef_case::<f64>(r, c, o) });
+    ctx.run_cases("histories", t.pick(6000, 30000), b, |r, c, o| if c % 3 == 0 { history_case::<f32>(r, c, o, maxlen) } else { history_case::<f64>(r, c, o, maxlen) });
+    ctx.run_cases("fit-exchanges", t.pick(2500, 15000), b, |r, c, o| if c % 4 == 0 { fit_case::<f32>(r, c, o) } else { fit_case::<f64>(r, c, o) });
+    ctx.run_cases("rank-deficient", t.pick(2500, 12000), b, |r, c, o| if c % 3 == 0 { rankdef_case::<f32>(r, c, o) } else { rankdef_case::<f64>(r, c, o) });
 }
